@@ -1001,7 +1001,7 @@ unticked_statement:
                 }
 
                 if val, ok := foreach.Key.(*ast.StmtForeach); ok {
-                    yylex.(*Parser).errHandlerFunc(errors.NewError("Key element cannot be a reference", val.AmpersandTkn.Position))
+                    yylex.(*Parser).reportError(errors.NewError("Key element cannot be a reference", val.AmpersandTkn.Position))
                     foreach.Key = val.Var
                 }
 
@@ -1031,7 +1031,7 @@ unticked_statement:
                 }
 
                 if val, ok := foreach.Key.(*ast.StmtForeach); ok {
-                    yylex.(*Parser).errHandlerFunc(errors.NewError("Key element cannot be a reference", val.AmpersandTkn.Position))
+                    yylex.(*Parser).reportError(errors.NewError("Key element cannot be a reference", val.AmpersandTkn.Position))
                     foreach.Key = val.Var
                 }
 
@@ -1316,11 +1316,11 @@ unticked_class_declaration_statement:
                         n.CloseCurlyBracketTkn = $7
 
                         if $3 != nil {
-                            yylex.(*Parser).errHandlerFunc(errors.NewError("A trait cannot extend a class. Traits can only be composed from other traits with the 'use' keyword", $3.(*ast.StmtClass).Position))
+                            yylex.(*Parser).reportError(errors.NewError("A trait cannot extend a class. Traits can only be composed from other traits with the 'use' keyword", $3.(*ast.StmtClass).Position))
                         }
 
                         if $4 != nil {
-                            yylex.(*Parser).errHandlerFunc(errors.NewError("A trait cannot implement an interface", $4.(*ast.StmtClass).Position))
+                            yylex.(*Parser).reportError(errors.NewError("A trait cannot implement an interface", $4.(*ast.StmtClass).Position))
                         }
                 }
 
